@@ -113,7 +113,7 @@ DirSeq == <<
 DirTuples(d) ==
   IF d = 1 THEN {<<i>> : i \in 1..Len(DirSeq)}
   ELSE IF d = 2 THEN (IF Big THEN {<<i, j>> : i \in {1, 2, 3, 4, 6, 8}, j \in {1, 2, 3, 4, 5, 10}}
-                      ELSE {<<2, 1>>, <<3, 4>>, <<1, 3>>, <<8, 2>>, <<6, 2>>, <<4, 10>>})
+                      ELSE {<<2, 1>>, <<3, 4>>, <<1, 3>>, <<8, 2>>, <<6, 2>>, <<4, 10>>, <<2, 2>>})   \* <<2,2>>: the same knot vector twice
   ELSE (IF Big THEN {<<i, j, k>> : i \in {1, 2, 9}, j \in {2, 9, 5}, k \in {1, 2, 10}}
         ELSE {<<9, 2, 1>>, <<2, 9, 10>>, <<1, 2, 9>>})
 
@@ -232,7 +232,10 @@ MkCase(dt, v) ==
                  LET p == DirSeq[dt[k]][1]  kv == DirSeq[dt[k]][2]
                      P == Pieces(kv, p)
                      g == Greville(kv, p)
-                     custom == (Hash(s, 40 + k) % 3 = 0) /\ p > 0
+                     \* the same knot vector on the first two axes: custom nodes on the first axis only, so that
+                     \* whatever is shared between axes with equal knot vectors must not include the nodes
+                     custom == IF d >= 2 /\ k <= 2 /\ dt[1] = dt[2] THEN (k = 1 /\ p > 0)
+                               ELSE (Hash(s, 40 + k) % 3 = 0) /\ p > 0
                      nodes == IF custom THEN Shifted(g) ELSE g
                  IN [p |-> p, kv |-> kv, n |-> NDofs(kv, p), custom |-> custom, nodes |-> nodes,
                      P |-> P, C |-> Colloc(kv, p, P, nodes), M |-> MassMat(kv, p, P), M1 |-> WMass(kv, p, P, 1)]]
